@@ -113,9 +113,52 @@ def gen_kruskal_bad(rng):
     return {"kind": "kruskal_bad", "n": n, "edges": [list(e) for e in edges], "allow_forest": rng.random() < 0.5}
 
 
-def gen_prim(rng, big=False):
+def gen_deep_edges(rng, big=False):
+    """(n, edges, tag) on 8..18 nodes whose weights come in tournament order: weight 1 joins singletons pairwise,
+    weight 2 the pairs, weight 3 the quadruples, ... so union-by-rank builds union-find trees of height >= 3 before the
+    heavier edges (random pairs incl. redundant ones, pendant nodes hanging on the heaviest edges, isolated nodes) query
+    deep nodes.  Node labels are randomly permuted, the edge list is shuffled."""
+    k = rng.choice([8, 8, 8, 16] if not big else [8, 8, 16, 16])
+    n = k + (rng.randint(0, 6) if k == 8 else rng.randint(0, 2))
+    canonical = rng.random() < 0.4
+    edges = []
+    blocks = [[i] for i in range(k)]
+    level = 0
+    while len(blocks) > 1:
+        level += 1
+        nxt = []
+        for i in range(0, len(blocks), 2):
+            A, B = blocks[i], blocks[i + 1]
+            a, b = (A[0], B[0]) if canonical else (rng.choice(A), rng.choice(B))
+            edges.append((a, b, level) if rng.random() < 0.7 else (b, a, level))
+            nxt.append(A + B)
+        blocks = nxt
+    for _ in range(rng.randint(3, 10)):
+        a, b = rng.randrange(k), rng.randrange(k)
+        edges.append((a, b, level + rng.randint(1, 5)))
+    for x in range(k, n):
+        r = rng.random()
+        if r < 0.75:
+            edges.append((x, rng.randrange(x), 20 + rng.randint(0, 3)) if rng.random() < 0.5 else (rng.randrange(x), x, 20 + rng.randint(0, 3)))
+            if rng.random() < 0.3:
+                edges.append((rng.randrange(k), x, 30 + rng.randint(0, 3)))
+        # else: isolated node (disconnected graph: every edge is processed, no early break)
+    perm = list(range(n))
+    rng.shuffle(perm)
+    edges = [(perm[a], perm[b], w) for a, b, w in edges]
+    rng.shuffle(edges)
+    return n, edges, f"deep{k}/{'canon' if canonical else 'rand'}"
+
+
+def gen_kruskal_deep(rng, big=False):
+    n, edges, tag = gen_deep_edges(rng, big)
+    return {"kind": "kruskal", "n": n, "edges": [list(e) for e in edges], "allow_forest": rng.random() < 0.5,
+            "float_w": rng.random() < 0.1, "tag": tag}
+
+
+def gen_prim(rng, big=False, base=None):
     """Symmetric adjacency dict built from an undirected edge list; random key order, isolated keys, any start."""
-    n, edges, tag = gen_edges(rng, big)
+    n, edges, tag = base if base is not None else gen_edges(rng, big)
     adj = {i: [] for i in range(n)}
     und = []
     for a, b, w in edges:
@@ -271,6 +314,21 @@ def brute_min_forest(nodes, und_edges):
     return best
 
 
+def naive_min_forest(nodes, und_edges):
+    """Weight of a minimum spanning forest by Kruskal over a plain label array (O(m log m + m n)), any size.
+    Independent of solvor: no union-find tree, no ranks, no compression."""
+    lab = {x: x for x in nodes}
+    total = 0
+    for a, b, w in sorted(und_edges, key=lambda e: e[2]):
+        la, lb = lab[a], lab[b]
+        if la != lb:
+            total += w
+            for x in nodes:
+                if lab[x] == lb:
+                    lab[x] = la
+    return total
+
+
 def undirected_key(e):
     a, b, w = e
     return (min(a, b), max(a, b), w)
@@ -297,8 +355,12 @@ def judge_tree(nodes, und_edges, sol, obj, directed_multiset=None):
     if obj != sum(e[2] for e in sol):
         return f"objective {obj} is not the total weight {sum(e[2] for e in sol)} of the returned edges"
     best = brute_min_forest(nodes, und_edges)
+    ref = naive_min_forest(nodes, und_edges)
+    assert best is None or best == ref, ("oracles disagree", nodes, und_edges, best, ref)
     if best is not None and obj != best:
         return f"objective {obj} is not the minimum {best} over all spanning forests"
+    if obj != ref:
+        return f"objective {obj} is not the minimum {ref} (naive label-array Kruskal reference)"
     return None
 
 
@@ -495,6 +557,8 @@ K_TYPE = "(nat * list edge * bool) * obs_outcome"
 P_TYPE = "(graph * option nat) * obs_outcome"
 K_CORR = "fun c => let '((n, es, af), o) := c in outcome_eqb false (obs_of (kruskal n es af)) o"
 P_CORR = "fun c => let '((g, st), o) := c in outcome_eqb false (obs_of (prim g st)) o"
+K_SPEC_BIG = "fun c => let '((n, es, af), o) := c in match o with ODone ob _ _ => kruskal_check n es af ob | _ => false end"
+MIN_CHECK_MAX_EDGES = 13
 K_SPEC = "fun c => let '((n, es, af), o) := c in match o with ODone ob _ _ => kruskal_check n es af ob && kruskal_min_check n es ob | _ => false end"
 P_SPEC = "fun c => let '((g, st), o) := c in match o with ODone ob _ _ => prim_check g st ob | _ => false end"
 
@@ -565,7 +629,9 @@ def canon_case(case):
 
 # ---------------------------------------------------------------- the check
 def run(ctx: Ctx):
-    ctx.rule = ("random weighted multigraphs on 1..6 nodes (7 thorough), <= 13 edges, weight modes equal/ties/negative/wide/distinct, "
+    ctx.rule = ("random weighted multigraphs on 1..6 nodes (7 thorough), <= 13 edges (judged by exhaustive spanning-forest enumeration) "
+                "plus a deep-union-find family on 8..18 nodes (tournament-ordered weights 1,2,3[,4] building union-find trees of height >= 3, "
+                "then heavier redundant edges, pendant and isolated nodes, permuted labels; judged by a naive label-array Kruskal reference),  weight modes equal/ties/negative/wide/distinct, "
                 "shapes random/dense/tree+extra/split/isolated/multi-edge/sparse, self loops, allow_forest on/off, prim with any start "
                 "and int/str/tuple/mixed labels, plus malformed kruskal inputs and raw (asymmetric) prim dicts; "
                 "non-trivial = OPTIMAL with >= 2 edges after at least one rejected edge / skipped heap entry, or a non-OPTIMAL "
@@ -577,6 +643,8 @@ def run(ctx: Ctx):
     cases += [gen_prim(ctx.rng, big) for _ in range(ctx.budget(350, 6000))]
     cases += [gen_kruskal_bad(ctx.rng) for _ in range(ctx.budget(30, 300))]
     cases += [gen_prim_raw(ctx.rng, big) for _ in range(ctx.budget(80, 1500))]
+    cases += [gen_kruskal_deep(ctx.rng, big) for _ in range(ctx.budget(70, 2500))]
+    cases += [gen_prim(ctx.rng, big, base=gen_deep_edges(ctx.rng, big)) for _ in range(ctx.budget(20, 500))]
 
     k_cases, k_meta, p_cases, p_meta, ks_cases, ps_cases = [], [], [], [], [], []
     brute_skipped = 0
@@ -621,6 +689,8 @@ def run(ctx: Ctx):
     ctx.notes.append("weights are integers (some passed as integral floats); float addition is exact on them, model over Z")
     ctx.notes.append("prim with a start that is not a node of the graph (returns OPTIMAL [] on a 1-node graph, INFEASIBLE otherwise) is "
                      "outside the property; such calls are only compared with the model")
+    ctx.notes.append("graphs with > 13 edges: minimality is judged by the naive label-array Kruskal reference of the harness and the Coq "
+                     "structural checker kruskal_check; the exponential Coq kruskal_min_check runs only up to 13 edges")
     ctx.notes.append("iterations / evaluations counters are modelled but not compared (the property does not mention them)")
     ctx.notes.append("theorems are about the Gallina model over Z with nat node ids; hashable labels are mapped injectively to nat by "
                      "the harness (the code only hashes / compares labels for equality; heap ties are broken by the unique counter)")
@@ -629,7 +699,12 @@ def run(ctx: Ctx):
 
     bad_k = ctx.coq_check("kruskal", IMPORTS, K_TYPE, K_CORR, k_cases)
     bad_p = ctx.coq_check("prim", IMPORTS, P_TYPE, P_CORR, p_cases)
-    bad_ks = ctx.coq_check("kruskal_spec", IMPORTS, K_TYPE, K_SPEC, [c for c, _, _ in ks_cases])
+    ks_small = [x for x in ks_cases if len(x[1]["edges"]) <= MIN_CHECK_MAX_EDGES]
+    ks_big = [x for x in ks_cases if len(x[1]["edges"]) > MIN_CHECK_MAX_EDGES]
+    bad_small = ctx.coq_check("kruskal_spec", IMPORTS, K_TYPE, K_SPEC, [c for c, _, _ in ks_small])
+    bad_big = ctx.coq_check("kruskal_spec_big", IMPORTS, K_TYPE, K_SPEC_BIG, [c for c, _, _ in ks_big])
+    ks_cases = ks_small + ks_big
+    bad_ks = bad_small + [len(ks_small) + i for i in bad_big]
     bad_ps = ctx.coq_check("prim_spec", IMPORTS, P_TYPE, P_SPEC, [c for c, _, _ in ps_cases])
     ctx.traces_validated += len(k_cases) + len(p_cases)
 
